@@ -333,7 +333,7 @@ func c16bCase(c *common, lg *tracelog.Log, idx int, names []string, prot, disk m
 	vo := runVerify(index, g, false, nil)
 	emit("verify", tracelog.M{"res": tracelog.M{"err": vo.Err, "errtext": vo.ErrText + vo.Panic, "usable": vo.Usable, "unusable": vo.Unusable,
 		"pusable": vo.PUsable, "punusable": vo.PUnusable, "needed": vo.Needed, "possible": vo.Possible, "repaired": []string{}},
-		"writes": []string{}, "outside": []string{}, "restored": intact, "changed_ok": true, "listed_ok": true, "kept_or_restored": true, "after": noAfter})
+		"writes": []string{}, "outside": []string{}, "restored": intact, "changed_ok": true, "listed_ok": true, "kept_or_restored": true, "stale": false, "after": noAfter})
 	ro := runRepair(index, g, idx%2 == 0, false, nil)
 	post := a.readDisk(dir)
 	restored := true
@@ -344,6 +344,6 @@ func c16bCase(c *common, lg *tracelog.Log, idx int, names []string, prot, disk m
 	}
 	emit("repair", tracelog.M{"res": tracelog.M{"err": ro.Err, "errtext": ro.ErrText + ro.Panic, "repaired": ro.Repaired,
 		"usable": 0, "unusable": 0, "pusable": 0, "punusable": 0, "needed": false, "possible": false},
-		"writes": []string{}, "outside": []string{}, "restored": restored, "changed_ok": true, "listed_ok": true, "kept_or_restored": true, "after": noAfter})
+		"writes": []string{}, "outside": []string{}, "restored": restored, "changed_ok": true, "listed_ok": true, "kept_or_restored": true, "stale": false, "after": noAfter})
 	return nil
 }
